@@ -14,7 +14,7 @@ from props.c20funcs import FUN
 
 ID = "C20"
 RULE = ("Segments over the node types DaskStream re-implements (map, starmap, accumulate with / "
-        "without start and returns_state, zip of two scattered inputs, buffer, partition, "
+        "without start, returns_state (pair as tuple or list) and with_state, zip of two scattered inputs, buffer, partition, "
         "sliding_window, union) wrapped in scatter() ... gather(), 1-2 entries, <= 12 integer (in a "
         "quarter of the single-entry cases: tuple / list / frozenset / range, also empty) "
         "inputs, each carrying a RefCounter; task functions sleep a value-dependent 0-16 ms so "
@@ -71,9 +71,13 @@ def op_list(draw, kind, two, allow_join, n_max, allow_buffer=True):
         elif op == "accumulate":
             rs = draw(st.booleans())
             # start None: the first element becomes the state and is passed on as it is
-            ops.append(["accumulate", "acc_rs" if rs else "acc_add",
-                        draw(st.sampled_from([0, 5, None, None] if kind == "int" else [0, 5])), rs])
-            kind = "int"
+            # with_state=True: the node emits (state, result) pairs; func may hand its pair back
+            # as any two-element sequence (a list here), the emitted pair is a tuple all the same
+            ws = draw(st.integers(0, 2)) == 0
+            fname = ("acc_rs_list" if ws and draw(st.booleans()) else "acc_rs") if rs else "acc_add"
+            ops.append(["accumulate", fname,
+                        draw(st.sampled_from([0, 5, None, None] if kind == "int" else [0, 5])), rs, ws])
+            kind = "pair" if ws else "int"
         elif op == "buffer":
             ops.append(["buffer", draw(st.integers(1, 8))])
         elif op == "union":
@@ -173,6 +177,8 @@ def build(case, dask):
             kw = {"start": op[2]} if op[2] is not None else {}
             if op[3]:
                 kw["returns_state"] = True
+            if len(op) > 4 and op[4] is True:
+                kw["with_state"] = True
             kw.update(ukw)
             node = node.accumulate(FUN[op[1]], **kw)
         elif k == "buffer":
@@ -386,6 +392,8 @@ def execute(case):
                                                                     "sliding_window", "buffer"}))
     return Result(v, nontrivial=nt, classes=["op:" + k for k in kinds] +
                   (["two-entries"] if case["two"] else []) +
+                  (["accumulate:with_state"] if any(o[0] == "accumulate" and len(o) > 4 and o[4] is True
+                                                    for o in case["ops"]) else []) +
                   ["elements:" + case.get("shape", "int")])
 
 
